@@ -462,12 +462,26 @@ theorem lazy_first_block_terminates (g : Graph) (hr : rankedB g = true) (hsym : 
   rw [pickLevel_init] at h
   exact h fuel hf
 
-/-- what is NOT proved for lazily expanded graphs: that `LState.avail` ("an unexplored flat node has not been dropped
-from the root for this worker") holds in every reachable state.  It holds initially (`lstate_init`) and is kept by
-every `.cont` iteration of the worker (`lazy_iteration_lowers_measure`); a worker drops a child of the root only when
-it pops that child, i.e. after the expansion step has unrolled it, but the proof for the steps that end in a
-suspension or continue after a test (`afterTraverse` in `resumeTest.continueAfter`) was not done.  `Explored` itself is
-monotone: -/
+open I2N.Trav.Term in
+/-- **Every reachable state of a lazily expanded graph.**  `ReachableL g ncls store hidden`: the states the scheduler
+reaches from the initial state in which exactly `hidden` is not parsed yet (root and flat nodes are parsed).  In each
+of them, for every worker that has not left the loop, the state hypotheses `LState` hold (`reachable_lstate`: the path
+shape as before; "no unexplored flat node has been dropped from the root" because a worker pops a child of the root
+only after the expansion step has unrolled it, and the node of a test execution is never flat), hence the loop it runs
+next terminates within `lazyBound g (pickLevel g s)` iterations. -/
+theorem reachable_lazy_loop_terminates (g : Graph) (d : Nat → Nat) (hr : Ranked g d) (hsym : EdgeSym g) (hz : LazyOK g)
+    (ncls : Nat) (store : List (String × List (String × String))) (hidden : List Nat)
+    (hcls : ∀ n, n < g.nodes.length → (g.node n).cls < ncls)
+    (hroot : hidden.contains g.root = false) (hflat : ∀ f, (g.node f).flat = true → hidden.contains f = false)
+    (s : State) (h : ReachableL g ncls store hidden s) (w : Nat) (hw : w < g.workers.length)
+    (hnd : (s.wd w).pc ≠ .done) (evs : List Event) (fuel : Nat) (hf : lazyBound g (pickLevel g s) ≤ fuel) :
+    ∃ r, runLoopO g w (lazyBound g (pickLevel g s)) s evs = some r ∧ runLoop g w fuel s evs = r :=
+  runLoop_terminates_lazy g d hr hsym hz w s evs (reachable_lstate hr hsym hz hcls hroot hflat h w hw hnd) fuel hf
+
+/-- what remains partial about the loop between two suspension points: the bound for lazily expanded graphs depends on
+the state through the level `pickLevel g s` of the pick counters (a static bound needs "an unexplored flat node was
+picked at most once per worker" as one more reachable invariant), and the fuel independence of the whole scheduler step
+(`resume_within_bound`) was lifted to reachable states for explored states only.  `Explored` itself is monotone: -/
 theorem loop_terminates_partial (g : Graph) (s s' : State) (h : I2N.Trav.Term.Explored g s)
     (hh : ∀ x, x ∈ s'.hidden → x ∈ s.hidden) (hi : ∀ x, x ∈ s.incompatible → x ∈ s'.incompatible) :
     I2N.Trav.Term.Explored g s' := h.mono hh hi
@@ -537,6 +551,18 @@ example := lazy_first_block_terminates gLazy (by decide) (by decide) (by decide)
 ninth iteration, while the second flat node is unexplored) and ends with the exit after 24 iterations -/
 example : ((I2N.Trav.Term.tracePaths gLazy 0 9 (initState gLazy 5 [] [3, 4, 5, 6])).drop 7 = [[0, 1, 3], [0]]) ∧
     (runLoop gLazy 0 24 (initState gLazy 5 [] [3, 4, 5, 6]) []).2 = [Event.exit "net1"] := by decide
+
+/-- a reachable state of `gLazy` (after the whole traversal of the first worker): the second worker's loop terminates -/
+example := reachable_lazy_loop_terminates gLazy _ (I2N.Trav.Term.rankedB_sound (by decide)) (edgeSymB_sound (by decide))
+  (I2N.Trav.Term.lazyOKB_sound (by decide)) 5 [] [3, 4, 5, 6] (by decide) (by decide)
+  (by intro f hf; have : ¬ (f = 3 ∨ f = 4 ∨ f = 5 ∨ f = 6) := by
+        rintro (h | h | h | h) <;> subst h <;> revert hf <;> decide
+      simp only [List.contains_cons, List.contains_nil, Bool.or_false, Bool.or_eq_false_iff, beq_eq_false_iff_ne]
+      omega)
+  _ (.step _ 0 ⟨none, 0⟩ 100 .init (by decide) (by decide)) 1 (by decide)
+  (fun h => by
+    have := congrArg (fun p => match p with | Pc.done => true | _ => false) h
+    revert this; decide) [] _ (Nat.le_refl _)
 
 /-- Necessity of acyclicity (model level; real graphs are acyclic by construction): on a graph with a cycle `a ⇄ b`
 the worker pushes parents for ever — the loop does run out of fuel. -/
